@@ -220,7 +220,7 @@ class TimeCorr(Unit):
         rank, dtype, spacing, d, csv = self.parse(case)
         T, N = ctx.int("T"), ctx.int("N")
         ctx.assume(T >= 1)
-        ctx.assume(N >= 0)
+        ctx.assume(N >= 1)      # no additional restriction: N = 0 gives C(0) = 0, excluded below (the statement divides by C(0))
         shape = (T, N) + (d,) * (rank - 2) if rank >= 2 else (T,)
         cond = ctx.array("A", shape, "float" if dtype == "real" else "complex", origin="argument condition")
         ts0, h = ctx.int("ts0"), ctx.int("h")
